@@ -120,7 +120,10 @@ def _mk_classes(par, metas=None):
         bases = tuple(classes[p] for p in ps) or (object,)
         name = (metas or {}).get(str(c))
         if name:
-            mcs[name] = mcs.get(name) or type(name, (type,), {"__module__": "vfworld"})
+            if name not in mcs:
+                # the metaclass also inherits from an ordinary class (as EnumMeta is Iterable / Sized)
+                mcs["base:" + name] = type("B" + name, (), {"__module__": "vfworld"})
+                mcs[name] = type(name, (type, mcs["base:" + name]), {"__module__": "vfworld"})
             classes.append(mcs[name](f"K{c}", bases, {"__module__": "vfworld"}))
         else:
             classes.append(type(bases[0])(f"K{c}", bases, {"__module__": "vfworld"}) if type(bases[0]) is not type and len(bases) == 1 and bases[0] is not object
@@ -1382,7 +1385,7 @@ def typearg_cases(jobs):
             if e["k"] == "inst":
                 return base[e["c"]]
             if e["k"] == "metaof":
-                return metas_[e["m"]]
+                return metas_[("base:" if e.get("via") == "base" else "") + e["m"]]
             raise ValueError(e)
 
         from ovld import call_next as _call_next
